@@ -381,6 +381,57 @@ func setR(r float64) {
 
 var src = &constSrc{}
 
+// runHistoryBStreams delivers the same history as streams: consecutive uri events travel on one channel through
+// one run of waitForUriUpdates (cut additionally before position split); the snapshot is compared with the fold
+// after every stream.
+func runHistoryBStreams(h []Event, split int) (err error) {
+	defer func() {
+		if r := recover(); r != nil {
+			err = fmt.Errorf("panic: %v", r)
+		}
+	}()
+	c := new(d2.Client)
+	m := newModel()
+	c.VerifSeedService(service, &d2.Service{ServiceName: service, ClusterName: cluster, PrioritizedSchemes: []string{"https", "http"}})
+	c.VerifSeedUris(cluster, d2.VerifNewServiceUris(zkPath))
+	var pending []Event
+	flush := func(at int) error {
+		if len(pending) == 0 {
+			return nil
+		}
+		var es []d2.TreeCacheEvent
+		for _, e := range pending {
+			es = append(es, e.tree())
+			m.apply(e)
+		}
+		c.VerifDeliverUriEvents(cluster, es)
+		last := pending[len(pending)-1]
+		n := len(pending)
+		pending = nil
+		if got, want := canonReal(c.VerifCurrentUris(cluster), false), m.canon(); got != want {
+			return fmt.Errorf("step %d %s: after a stream of %d events on one channel: snapshot %q != fold %q", at, last, n, got, want)
+		}
+		return nil
+	}
+	for i, e := range h {
+		if i == split {
+			if err := flush(i - 1); err != nil {
+				return err
+			}
+		}
+		if strings.HasPrefix(e.Kind, "svc") {
+			if err := flush(i - 1); err != nil {
+				return err
+			}
+			c.VerifDeliverServiceEvent(service, e.tree())
+			m.apply(e)
+			continue
+		}
+		pending = append(pending, e)
+	}
+	return flush(len(h) - 1)
+}
+
 func runHistoryB(h []Event) (err error) {
 	defer func() {
 		if r := recover(); r != nil {
@@ -470,7 +521,7 @@ func partB(a *hcli.Args, rep *report.Report) {
 		maxLen = 4
 	}
 	s := rep.S("client-histories")
-	s.Bounds = fmt.Sprintf("events=%d max_length=%d (delivered through waitForUriUpdates / waitForServiceUpdates, observed through ResolveHostnameAndContextForQuery)", len(events), maxLen)
+	s.Bounds = fmt.Sprintf("events=%d max_length=%d (delivered through waitForUriUpdates / waitForServiceUpdates one event per channel and as streams of consecutive events on one channel with every cut point, observed through ResolveHostnameAndContextForQuery)", len(events), maxLen)
 	count := 0
 	capped := enumerate(events, maxLen, a, func(h []Event) bool {
 		if len(h) == 1 && a.Shard != 0 {
@@ -485,6 +536,13 @@ func partB(a *hcli.Args, rep *report.Report) {
 		s.Traces++
 		s.Transitions += int64(len(h))
 		s.States++
+		// the same history as streams of several events per channel (every cut point)
+		for split := 0; err == nil && split < len(h); split++ {
+			err = runHistoryBStreams(h, split)
+			s.Evaluations++
+			s.Traces++
+			s.Transitions += int64(len(h))
+		}
 		if err != nil {
 			rep.Fail(fmt.Sprintf("%s client-history event=%s :: %s", a.Gen, failingEvent(err), classify(err)),
 				fmt.Sprintf("history: %s\n%v", histString(h), err), replayPayload{Gen: a.Gen, Part: "B", History: append([]Event(nil), h...)})
@@ -823,6 +881,9 @@ func main() {
 			fmt.Println("history:", histString(rp.History))
 		case "B":
 			err = runHistoryB(rp.History)
+			for split := 0; err == nil && split < len(rp.History); split++ {
+				err = runHistoryBStreams(rp.History, split)
+			}
 			fmt.Println("history:", histString(rp.History))
 		case "C":
 			for i := 0; i < 64 && err == nil; i++ {
